@@ -172,7 +172,7 @@ pub fn run(rep: &mut Report, driver: &str, workers: usize, thorough: bool, seed:
     let model = par_batch(driver, workers, &reqs);
     let mut sr = StreamReport::new(
         "poll-schedules",
-        "8 rulesets (one of them with 60 rules; cached / uncached / failing user functions, lazy and strict operators, references missing only on the branch one input takes, a cacheable call completed before a suspending one) x suspension patterns (each user-function call returns Pending 0..3 times) x cacheability; two evaluations of ONE shared RuleSet on different inputs polled by a hand-rolled executor (no-op waker) under EVERY interleaving of their polls (up to 924 schedules per case; larger cases: 400 sampled), every abandonment point of one evaluation (dropped after j polls) followed by a fresh evaluation — with a second evaluation in flight, and alone followed by four fresh evaluations —, every sequence of three completed evaluations over the two inputs, and 3 consecutive evaluations; compared per evaluation: outcomes and the order of its own user-function invocations, against the model's sequential result",
+        "8 rulesets (one of them with 60 rules; cached / uncached / failing user functions, lazy and strict operators, references missing only on the branch one input takes, a cacheable call completed before a suspending one) x suspension patterns (each user-function call returns Pending 0..3 times) x cacheability; two evaluations of ONE shared RuleSet on different inputs polled by a hand-rolled executor (no-op waker) under EVERY interleaving of their polls (up to 924 schedules per case; larger cases: 400 sampled), every abandonment point of one evaluation (dropped after j polls) followed by a fresh evaluation — with a second evaluation in flight, and alone followed by four fresh evaluations —, every sequence of three completed evaluations over the two inputs, 3 consecutive evaluations, and two rulesets built from clones of the same rules (different symbols and functions) evaluated alternately; compared per evaluation: outcomes and the order of its own user-function invocations, against the model's sequential result",
         false,
     );
     let max_sched = if thorough { 924 } else { 300 };
@@ -333,6 +333,52 @@ pub fn run(rep: &mut Report, driver: &str, workers: usize, thorough: bool, seed:
             sr.hist("kind", "repeat");
             if got != want[0] || log_of(&log, 1) != want_log[0] {
                 report("repeat", format!("evaluation #{}", round + 1), format!("{} | {}", got, log_of(&log, 1)), format!("{} | {}", want[0], want_log[0]), "C12 repeated-evaluation-differs", rep);
+            }
+        }
+    }
+    // (e) the same `Rule` values loaded into two rulesets with different symbol tables and functions: a rule's outcome
+    //     belongs to the ruleset it is evaluated in, whatever another ruleset holding a clone of it has computed before
+    {
+        let rules: Vec<Expr> = vec![
+            mk_bin("mult", Expr::Symbol("net".into()), lit(Value::Int(2))),
+            Expr::Symbol("tier".into()),
+            iff(Expr::Symbol("flag".into()), Expr::Symbol("net".into()), lit(Value::Int(0))),
+            lit(Value::Int(7)),
+            call("g", Expr::Symbol("net".into())),
+        ];
+        let envs = [
+            EnvSpec { syms: vec![("net".into(), Value::Int(200)), ("tier".into(), crate::pool::s("gold")), ("flag".into(), Value::Bool(true))], fns: vec![FnSpec::new("g", true, FnKind::Id)] },
+            EnvSpec { syms: vec![("net".into(), Value::Int(1000)), ("tier".into(), crate::pool::s("basic"))], fns: vec![FnSpec::new("g", true, FnKind::Const(Value::Int(5)))] },
+        ];
+        let facts = Value::None;
+        let reqs: Vec<String> = envs.iter().map(|e| RsCase { tag: String::new(), rules: rules.clone(), facts: facts.clone(), env: e.clone(), evals: 1 }.request("(oracle)")).collect();
+        let model = par_batch(driver, workers, &reqs);
+        let shared_rules: Vec<Rule> = rules.iter().enumerate().map(|(i, e)| Rule::new(format!("r{}", i), std::collections::BTreeMap::new(), e.clone())).collect();
+        let shareds = [Arc::new(Shared::default()), Arc::new(Shared::default())];
+        let built: Vec<RuleSet> = (0..2)
+            .map(|k| {
+                let mut b = ruleset().with_rules(shared_rules.clone()).expect("rules");
+                for f in &envs[k].fns {
+                    b = b.with_function(HFn { name: leak(&f.name), spec: f.clone(), shared: shareds[k].clone() }).expect("fn");
+                }
+                for (n, v) in &envs[k].syms {
+                    b = b.with_symbol(n, v.clone());
+                }
+                b.build()
+            })
+            .collect();
+        for order in [[0usize, 1, 0, 1], [1, 0, 1, 0]] {
+            for (n, k) in order.iter().enumerate() {
+                let got = match catch_unwind(AssertUnwindSafe(|| block_on(mk_fut(&built[*k], &facts)))) {
+                    Ok(g) => g,
+                    Err(p) => format!("PANIC {}", panic_msg(p)),
+                };
+                let want = field(&model[*k], 0).to_string();
+                sr.count(&format!("shared-rules {:?} {}", order, n), true);
+                sr.hist("kind", "rules-shared-by-two-rulesets");
+                if got != want {
+                    rep.add_finding(Finding { kind: "impl-violates-property".into(), stream: "poll-schedules".into(), case: format!("shared-rules\t{:?}\t{}", order, n), human: format!("two rulesets built from clones of the same rules, evaluated in the order {:?}: evaluation #{} (ruleset {})", order, n + 1, k), impl_out: got, model_out: want, predicate: "the outcomes of a ruleset do not depend on evaluations of another ruleset that holds clones of the same rules".into(), signature: "C12 shared-rules".into() });
+                }
             }
         }
     }
